@@ -483,6 +483,8 @@ def evaluate(built, focus):
         # a similarity-oracle law that the theorems assume fails on a value CPython produced
         for msg in c.get("laws", []):
             found.append((focus, "premise of the theorems (similarity-oracle law) fails: " + msg))
+        if focus == "C03" and not isinstance(raw, str) and not desc["opts"].get("_embed") and not desc["opts"].get("_blank"):
+            found += text_level_c03(desc, opts, stats)
         if focus == "C17":
             # an action that cannot be applied as documented does not "change the document when applied" either
             found += [("C17", "not applicable, hence without effect: " + m) for p_, m in found if p_ == "C05"]
@@ -541,6 +543,39 @@ def judge_other(how, lx, rx, script, ign):
         out.append(("C03", "[%s] empty script for different documents" % how))
     if ign and same_ign and len(acts) > len(nsa):
         out.append(("C13", "[%s] documents differ only in ignored attributes but the script is %r" % (how, acts)))
+    return out
+
+
+def text_level_c03(desc, opts, stats):
+    """C03 at the text-level entry point, on the same strings before and after the xml formatter has been used on them
+    (its prepare() rewrites the trees it is given): empty script iff the documents, parsed as diff_texts parses them,
+    are equal; the right document also in another spelling (<a /> for <a/>)."""
+    from xmldiff import main, formatting
+    o = {k: v for k, v in opts.items() if not k.startswith("_")}
+    ign = tuple(o.get("ignored_attrs", []))
+    out = []
+    try:
+        P = etree.XMLParser(remove_blank_text=True)
+        A, B = etree.fromstring(desc["left"], P), etree.fromstring(desc["right"], P)
+        same = oracles.canon(oracles.from_lxml(A), ignored=ign) == oracles.canon(oracles.from_lxml(B), ignored=ign)
+        spelled = desc["right"].replace("/>", " />")
+        stats["text_level_c03"] = stats.get("text_level_c03", 0) + 1
+        for step in ("first", "after-xml"):
+            for rx in (desc["right"], spelled):
+                s_ = main.diff_texts(desc["left"], rx, diff_options=dict(o))
+                nsa = [a for a in s_ if type(a).__name__ in ("InsertNamespace", "DeleteNamespace")]
+                if same and len(s_) > len(nsa):
+                    out.append(("C03", "main.diff_texts (%s) returns a non-empty script for equal documents: %r" % (step, s_)))
+                if not same and not s_:
+                    out.append(("C03", "main.diff_texts (%s) returns the empty script for different documents" % step))
+            if step == "first":
+                try:
+                    main.diff_texts(desc["left"], desc["right"], diff_options=dict(o), formatter=formatting.XMLFormatter())
+                    main.diff_texts(desc["left"], spelled, diff_options=dict(o), formatter=formatting.XMLFormatter(normalize=formatting.WS_BOTH))
+                except Exception:  # noqa  (the xml formatter's own failures are C08's business)
+                    pass
+    except Exception as ex:  # noqa
+        out.append(("C01", "main.diff_texts raised %r" % ex))
     return out
 
 
